@@ -9,7 +9,7 @@ inductive St where
   | sop (st : Nat) (p : SOPx) (zt : List (Nat × Nat × Nat))  -- sizeof(storage_type), pool, zone table
   | mpool (m : Links) (s : MState) (zt : List (Nat × Nat × Nat))  -- several zones: (base, cells, elemsz)
   | tri (st : Nat) (p : Pool) (ip : IPool) (sp : SOPx) (slots : List (Nat × Option Nat × Option Nat × Option Nat))  -- the three twins on one history
-  | heap (cfg : Cfg) (h : Heap) (ph : PHeap) (slots : List (Nat × Nat))   -- slot ↦ payload offset; list model and `nx`-pointer model side by side
+  | heap (cfg : Cfg) (h : Heap) (ph : PHeap) (slots : List (Nat × Nat)) (fills : List (Nat × Nat × Nat)) (ctr : Nat)   -- slot ↦ payload offset; list model and `nx`-pointer model side by side
 
 def optS : Option Nat → String
   | none => "null"
@@ -57,6 +57,10 @@ def cellAddr? (zt : List (Nat × Nat × Nat)) (k off : Nat) : Option Nat :=
   match zt[k]? with
   | some (b, n, e) => if off < n * e then some (b + off) else none
   | none => none
+
+/-- the harness' bookkeeping of fill patterns: slot ↦ (seed, requested size) -/
+def fillSet (fills : List (Nat × Nat × Nat)) (k seed n : Nat) : List (Nat × Nat × Nat) :=
+  (k, seed, n) :: fills.filter (·.1 ≠ k)
 
 def heapLine (ret : String) (h : Heap) (slots : List (Nat × Nat)) : String :=
   let fl := String.join (h.flp.map fun c => s!"({c.1},{c.2})")
@@ -173,7 +177,7 @@ def stepLine (st : St) (line : String) : St × String :=
   | "reset" :: "heap" :: l :: _ =>
     -- an optional 4th word selects the debug / release build of the C code: same model
     match l.toNat? with
-    | some l => (.heap ⟨64, l⟩ Heap.init PHeap.init [], "ok")
+    | some l => (.heap ⟨64, l⟩ Heap.init PHeap.init [] [] 1, "ok")
     | none => bad
   | ws =>
     match st, ws with
@@ -241,6 +245,11 @@ def stepLine (st : St) (line : String) : St × String :=
           (.sop st p' zt, s!"{p'.sop.avail} {p'.sop.objs.length} {p'.ctor.length} {p'.dtor.length}{if p'.sop.fault then " FAULT" else ""}")
         | none => (st', "fault")
       | none => bad
+    | .sop st p zt, ["ct"] =>
+      -- `create(args…)` whose constructor throws: the cell goes back to the pool, no object, no ledger entry
+      let (threw, sop') := p.sop.createThrow
+      let p' : SOPx := { p with sop := sop' }
+      (.sop st p' zt, s!"{if threw then "throw" else "null"} {p'.sop.avail} {p'.sop.objs.length} {p'.ctor.length} {p'.dtor.length}{if p'.sop.fault then " FAULT" else ""}")
     | .sop st p zt, ["x", n] =>
       match n.toNat? with
       | some n =>
@@ -318,7 +327,7 @@ def stepLine (st : St) (line : String) : St × String :=
           (st', (if a then "1" else "0") ++ (if a != b then " MISMATCH" else ""))
         | none => (st', "fault")
       | _, _ => bad
-    | .heap cfg h ph slots, ["m", k, n] =>
+    | .heap cfg h ph slots fills ctr, ["m", k, n] =>
       match k.toNat?, n.toNat? with
       | some k, some n =>
         let r := mallocA BASE cfg h n
@@ -327,9 +336,13 @@ def stepLine (st : St) (line : String) : St × String :=
         let rp := if (n % cfg.W ≠ 0 ∧ n > SIZE_MAX - (cfg.W - n % cfg.W)) ∨ mallocRefusesA BASE cfg h n then (⟨ph, none⟩ : PRes)
           else mallocP cfg ph n (ph.brk + 1)
         let slots' := slotSet slots k r.ret
-        (.heap cfg r.h rp.h slots', heapLine (optS r.ret) r.h slots' ++ ptrAgree r.h rp.h r.ret rp.ret)
+        -- the harness fills the new block with the next pattern
+        let (fills', ctr') := match r.ret with
+          | some _ => (fillSet fills k ctr n, ctr + 1)
+          | none => (fills, ctr)
+        (.heap cfg r.h rp.h slots' fills' ctr', heapLine (optS r.ret) r.h slots' ++ ptrAgree r.h rp.h r.ret rp.ret)
       | _, _ => bad
-    | .heap cfg h ph slots, ["f", k] =>
+    | .heap cfg h ph slots fills ctr, ["f", k] =>
       match k.toNat? with
       | some k =>
         match slotGet slots k with
@@ -340,9 +353,9 @@ def stepLine (st : St) (line : String) : St × String :=
           | some r =>
             let rp := freeP ph p (ph.brk + 1)
             let slots' := slotSet slots k none
-            (.heap cfg r.h rp.h slots', heapLine "-" r.h slots' ++ ptrAgree r.h rp.h none none)
+            (.heap cfg r.h rp.h slots' (fills.filter (·.1 ≠ k)) ctr, heapLine "-" r.h slots' ++ ptrAgree r.h rp.h none none)
       | none => bad
-    | .heap cfg h ph slots, ["r", k, n] =>
+    | .heap cfg h ph slots fills ctr, ["r", k, n] =>
       match k.toNat?, n.toNat? with
       | some k, some n =>
         match reallocA BASE cfg h (slotGet slots k) n with
@@ -358,7 +371,18 @@ def stepLine (st : St) (line : String) : St × String :=
           let slots' := match r.ret with
             | none => slots
             | some q => slotSet slots k (some q)
-          (.heap cfg r.h rp.h slots', heapLine (optS r.ret) r.h slots' ++ ptrAgree r.h rp.h r.ret rp.ret)
+          -- CONTENTS: the model's stores (`memcpy` of the move path, header writes) executed on the old block's
+          -- bytes; digest of the first min(old, new) bytes of the returned block (the harness prints the digest
+          -- of the real bytes at that point, before it refills the block)
+          let pre : String := match r.ret, slotGet slots k, fills.find? (·.1 = k) with
+            | some q, some p, some (_, seed, oldn) =>
+              let m' := execJ (fun _ => 0xAA) (patMem p oldn seed 0x55) r.evs
+              s!" pre={prefixDigest m' q (min oldn n)}"
+            | _, _, _ => ""
+          let (fills', ctr') := match r.ret with
+            | some _ => (fillSet fills k ctr n, ctr + 1)
+            | none => (fills, ctr)
+          (.heap cfg r.h rp.h slots' fills' ctr', heapLine (optS r.ret) r.h slots' ++ pre ++ ptrAgree r.h rp.h r.ret rp.ret)
       | _, _ => bad
     | _, _ => bad
 
